@@ -307,6 +307,10 @@ kdump_free(kdump_ctx_t *ctx)
 		if (shared->per_ctx_size[slot])
 			free(ctx->data[slot]);
 
+	/* The application may hold its own reference to the translation
+	 * context: return its cached pages and unhook the callbacks that
+	 * point to this object before it goes away. */
+	addrxlat_ctx_del_cb(ctx->xlatctx, ctx->xlatcb);
 	addrxlat_ctx_decref(ctx->xlatctx);
 
 	list_del(&ctx->xlat_list);
